@@ -736,6 +736,16 @@ def drive(rec, table, b, families, rng, exhaustive_queries, nsub=10, nmulti=12, 
         # the lazy lattice is state: query the covers BEFORE it is computed on half of the behaviours ...
         for s in osubs:
             T(rec.neighbors, scramble(s, rng), raw=False)
+    if families & lattice_fams and b % 2 == 0 and not nolattice:
+        # lattice-free calls BEFORE the lattice is first computed (anything they leave behind must not change it)
+        for s0 in ([], list(range(1, n + 1)), [1], [n]):
+            T(rec.intension, list(s0), raw=False)
+        for s0 in ([], list(range(1, m + 1)), [1], [m]):
+            T(rec.extension, list(s0), raw=(b % 4 == 0))
+        T(rec.ctx_getitem, 'o', [1], raw=False)
+        T(rec.ctx_getitem, 'p', [m], raw=True)
+        T(rec.neighbors, [], raw=False)
+        T(rec.relations)
     if families & lattice_fams:
         T(rec.lat_list)          # first touch of the lazy lattice; the iteration is the index base
     elif b % 2 == 1 and not nolattice and min(n, m) <= 12:
@@ -785,6 +795,22 @@ def drive(rec, table, b, families, rng, exhaustive_queries, nsub=10, nmulti=12, 
     if 'C06' in families:
         T(rec.lat_order)
         T(rec.lat_links)
+        if b % 4 == 0 and n * m <= 400:
+            # the same lattice after a raw load of a permuted document (the re-sorting path of fromdict)
+            def raw_loaded():
+                doc = rec.ctx.todict()
+                lat = doc['lattice']
+                sigma = list(range(len(lat)))
+                rng.shuffle(sigma)
+                inv = {old: new for new, old in enumerate(sigma)}
+                doc['lattice'] = [(tuple(reversed(lat[o][0])), lat[o][1], tuple(inv[u] for u in reversed(lat[o][2])),
+                                   tuple(inv[u] for u in lat[o][3])) for o in sigma]
+                loaded = rec.C.Context.fromdict(doc, raw=True)
+                rec.ctx, rec._members = loaded, None
+                rec.ev('ctx.new', n=n, m=m, rows=table.rows, tag=table.tag + ':raw-loaded')
+            if T(raw_loaded):
+                T(rec.lat_order)
+                T(rec.lat_links)
     try:
         N = len(rec.members) if families & lattice_fams else 0
     except Exception:
